@@ -36,7 +36,7 @@ class HGen:
         started = {}      # k -> (uid, action)
         gen_n = 0
         next_k = 0
-        t_choices = [0.25, 1, 5, timeout - 0.25, timeout, timeout + 0.25, timeout / 2, 2 * timeout]
+        t_choices = [0.25, 1, 5, timeout - 0.25, timeout, timeout + 0.25, int(timeout * 2) / 4 or 0.25, 2 * timeout]
         for _ in range(n_ops):
             r = rng.random()
             if r < 0.28 and next_k < 7:
@@ -76,7 +76,7 @@ class HGen:
                 if started and rng.random() < 0.7:
                     uid, action = rng.choice(list(started.values()))
                 else:
-                    uid, action = rng.choice(["nobody", "gen-7", 1, None, "my-id"]), rng.choice(SIMPLE[version])
+                    uid, action = rng.choice(["nobody", "gen-7", 1, None, "my-id", "-1", -1, "0", ""]), rng.choice(SIMPLE[version])
                 kind = rng.random()
                 if kind < 0.6:
                     resps = self.insts(version, action, "resp")
@@ -152,6 +152,35 @@ class HGen:
             out.append((version, [], ops, 30))
         return out
 
+    def special_ids(self):
+        """replies whose id some convention treats specially ("-1" is what an OCPP 2.0.1 peer puts into the CALLERROR for a
+        CALL whose id it could not read; also "", "0", null): they answer nobody's request unless a caller chose that
+        very id -- queued before the request, arriving during the wait, as CALLERROR and as CALLRESULT"""
+        out = []
+        for version in ("1.6", "2.0.1"):
+            for sid in ("-1", -1, "", "0", None):
+                ops = [("inbound", json.dumps([4, sid, "GenericError", "early", {}])),
+                       ("start", 0, "A", "Heartbeat", {}, False, False, True),
+                       ("inbound", json.dumps([4, sid, "InternalError", "during", {}])),
+                       ("inbound", json.dumps([3, sid, {"currentTime": "wrong"}])),
+                       ("tick", 1),
+                       ("inbound", json.dumps([3, "A", {"currentTime": "right"}])),
+                       ("tick", 1),
+                       ("start", 1, None, "Heartbeat", {}, False, True, True),
+                       ("inbound", json.dumps([4, sid, "GenericError", "again", {}])),
+                       ("tick", 1),
+                       ("inbound", json.dumps([3, "gen-0", {"currentTime": "right2"}])),
+                       ("tick", 1)]
+                out.append((version, [], ops, 30))
+        # a fractional response timeout is honoured to the fraction
+        for version, timeout in (("1.6", 0.75), ("2.0.1", 2.5), ("1.6", 1.75)):
+            ops = [("start", 0, "F", "Heartbeat", {}, False, False, True), ("tick", timeout - 0.25),
+                   ("inbound", json.dumps([3, "F", {"currentTime": "in time"}])), ("tick", 0.25),
+                   ("start", 1, "G", "Heartbeat", {}, False, False, True), ("tick", timeout - 0.25), ("tick", 0.25), ("tick", 0.25),
+                   ("inbound", json.dumps([3, "G", {"currentTime": "late"}])), ("tick", 1)]
+            out.append((version, [], ops, timeout))
+        return out
+
     def error_codes(self):
         """one caller per OCPP error code (suppression off, then on): the matching CALLERROR must come back as
         exactly that error class resp. None; an undefined code as the unknown-code error"""
@@ -174,10 +203,10 @@ class HGen:
         n = 60 if self.tier == "quick" else 600
         hs = []
         for i in range(n):
-            timeout = self.rng.choice([30, 2, 10])
+            timeout = self.rng.choice([30, 2, 10, 2.5, 0.75, 1.75, 30.25])
             hs.append(self.history(self.rng.choice([6, 12, 25, 40]) if self.tier == "quick" else self.rng.choice([10, 40, 120]), timeout))
         hs.append(self.stale_flood(300 if self.tier == "quick" else 3000))
-        return self.skip_overlap() + self.error_codes() + self.reply_burst(1100 if self.tier == "quick" else 2600) + hs
+        return self.skip_overlap() + self.special_ids() + self.error_codes() + self.reply_burst(1100 if self.tier == "quick" else 2600) + hs
 
 
 def run_histories(rep, hs, tag, prop_id, oracle, view, shard_size=8, async_validation=False):
